@@ -114,7 +114,7 @@ CHECKS = {
     "C13": (
         "wire",
         "exploration",
-        "Generated pipelined sessions against the whole in-process server over its unix socket: 1-4 concurrent sessions (v1, 20 % v0) each writing 1-25 requests of every message kind in one burst with non-monotonic ids up to u64::MAX and valid/invalid arguments, closed by a sentinel request. For every request exactly one terminal answer with its id and of the kind the protocol assigns (or err with the predicted errorCode; full predicted content on the session's private key space) must have arrived; events only carry ids of acknowledged subscriptions and come after the ack; no foreign ids; the session is still open at the sentinel.",
+        "Generated pipelined sessions against the whole in-process server over its unix socket: 1-4 concurrent sessions (v1, 20 % v0) each writing 1-25 requests of every message kind in one burst with non-monotonic ids up to u64::MAX and valid/invalid arguments, closed by a sentinel request. For every request exactly one terminal answer with its id and of the kind the protocol assigns (or err with the predicted errorCode; full predicted content on the session's private key space) must have arrived; events only carry ids of acknowledged subscriptions and come after the ack; no foreign ids; the session is still open at the sentinel. Two further parts: a TCP client that reads late and in small pieces (back pressure: partial socket writes), and 1 500 cases of 2-3 concurrent sessions contending for two locks (acquireLock not waited for, releases by sessions that only wait, everything released at the end) where every request must end up with exactly one answer.",
         "Answers are predicted only for the private key space of a session and for protected/empty keys; in the shared area only the answer kind is checked. Handshake messages are outside the domain. A 20 s per-session budget that expires drops the case (counted as inconclusive).",
         "property-based testing: proptest session scripts against an answer-table + reference-model oracle over a real socket",
         "DESIGN.md §5 C13",
@@ -162,8 +162,8 @@ CHECKS = {
     "C19": (
         "election (black box)",
         "exploration",
-        "Generated peer scripts against the real worterbuch-cluster-orchestrator process (rebuilt from /repo), a stub server executable that logs its command line, and scripted peers on loopback UDP sockets: cluster sizes 1-7, configured quorum absent or 1-7, own priority, per peer silent / single / duplicate / late / unsolicited votes, competing candidates of lower/equal/higher priority with or without heartbeat, acknowledged or ignored heartbeats, votes and heartbeats of a non-member. A --leader start requires that by then >= quorum-1 distinct configured peers had sent a vote in answer to a vote request; a --follower start must point to the sync address of a configured peer that had announced itself. 160 runs quick, 6 k thorough.",
-        "Wall clock and real UDP: only safety is asserted and only 'sent so far' sets are used, so scheduling delays can only make the oracle more permissive. 'Unsolicited' = sent before the node's minimum election timeout can have expired. The in-process variant on stepped virtual time described in DESIGN.md was not built (see DESIGN.md §5 C19).",
+        "Generated peer scripts against the real worterbuch-cluster-orchestrator process (rebuilt from /repo), a stub server executable that logs its command line, and scripted peers on loopback UDP sockets: cluster sizes 1-7, configured quorum absent or 1-7, own priority, per peer silent / single / duplicate / late / unsolicited votes, competing candidates of lower/equal/higher priority with or without heartbeat (at a generated time, or reacting to every vote request of the node so that its rounds are abandoned rather than timed out; a fifth of the cases are structured that way with fewer voters than the quorum needs), acknowledged or ignored heartbeats, votes and heartbeats of a non-member. A --leader start requires that by then >= quorum-1 distinct configured peers had sent a vote in answer to a vote request; a --follower start must point to the sync address of a configured peer that had announced itself. 160 runs quick, 6 k thorough.",
+        "Wall clock and real UDP: only safety is asserted and only 'sent so far' sets are used, so scheduling delays can only make the oracle more permissive; the set of valid voters is cumulative over the rounds of a run (vote responses carry no round number), so votes of *different* peers from different rounds are not told apart. 'Unsolicited' = sent before the node's minimum election timeout can have expired. The in-process variant on stepped virtual time described in DESIGN.md was not built (see DESIGN.md §5 C19).",
         "property-based testing / fuzzing of a protocol participant: proptest peer scripts against the real process with a quorum/membership safety invariant over the observed command lines",
         "DESIGN.md §5 C19",
     ),
